@@ -36,7 +36,10 @@ type dprobe struct {
 	limit int // abort the run (panic stackGrew) when the relative depth exceeds this; 0 = never
 	buf   []uintptr
 	beat  func() // watchdog heartbeat on sampled steps (long runs)
+	fuel  int    // a loop of n steps that takes more than 2n+100 steps is aborted (panic runaway)
 }
+
+type runaway struct{ steps int }
 
 func newProbe(every, limit int) *dprobe {
 	if every < 1 {
@@ -50,8 +53,16 @@ func (p *dprobe) here() { p.base = runtime.Callers(0, p.buf) }
 
 func (p *dprobe) hit(force bool) {
 	p.cnt++
+	if p.fuel > 0 && p.cnt > p.fuel {
+		panic(runaway{p.cnt})
+	}
 	if force || p.cnt%p.every == 0 {
-		d := runtime.Callers(0, p.buf) - p.base
+		raw := runtime.Callers(0, p.buf)
+		d := raw - p.base
+		if raw >= len(p.buf) {
+			// the frame buffer is saturated: thousands of frames inside a tail-recursive loop
+			panic(stackGrew{d, p.cnt})
+		}
 		if p.beat != nil {
 			p.beat()
 		}
@@ -151,7 +162,7 @@ var loops = []loop{
 		}
 		return isEven(n).Get(), n%2 == 0
 	}},
-	{"FlatMap+TailCall1", "monadic loop step(k,acc) = lazy.Call(k).FlatMap(v => lazy.TailCall2(step, v-1, acc+v)): recursive call in tail position of the continuation", func(n int, p *dprobe) (any, any) {
+	{"FlatMap+TailCall2", "monadic loop step(k,acc) = lazy.Call(k).FlatMap(v => lazy.TailCall2(step, v-1, acc+v)): recursive call in tail position of the continuation", func(n int, p *dprobe) (any, any) {
 		var st func(k, acc int) lazy.Eval[int]
 		st = func(k, acc int) lazy.Eval[int] {
 			if k == 0 {
@@ -198,11 +209,14 @@ func findFirst(target int, p *dprobe) func(a int, rest lazy.Eval[int]) lazy.Eval
 func measure(l loop, n, samples, limit int, beat func()) (depth int, got, want any, grew *stackGrew, pv any) {
 	p := newProbe(n/samples, limit)
 	p.beat = beat
+	p.fuel = 2*n + 100
 	func() {
 		defer func() {
 			if r := recover(); r != nil {
 				if g, ok := r.(stackGrew); ok {
 					grew = &g
+				} else if ra, ok := r.(runaway); ok {
+					pv = fmt.Sprintf("the loop did not finish within %d steps (expected %d)", ra.steps-1, n)
 				} else {
 					pv = r
 				}
@@ -219,7 +233,7 @@ func TestStack(t *testing.T) {
 		l := l
 		sig := "C16|" + l.name
 		rule := l.what + "; n = 10^3, 10^4 or 10^5 (+ jitter), call depth (runtime.Callers, relative to the caller of Get) sampled inside the steps; oracle: max depth at n <= max depth at n/100 + 8 frames, and the loop's value equals a directly computed reference; non-trivial iff n >= 10^4; distinct by (n, sampling)"
-		kit.Check(t, l.name+"/stack", rule, kit.Opt{Weight: 0.006, MinChecks: 5}, func(rt *rapid.T, rec *kit.Rec) {
+		kit.Check(t, l.name+"/stack", rule, kit.Opt{Weight: pickF(0.01, 0.002), MinChecks: 5}, func(rt *rapid.T, rec *kit.Rec) {
 			n := rapid.SampledFrom([]int{1000, 10000, 100000}).Draw(rt, "n") + rapid.IntRange(0, 99).Draw(rt, "jitter")
 			samples := rapid.IntRange(20, 400).Draw(rt, "samples")
 			rec.Case(n >= 10000, fmt.Sprintf("n=%d samples=%d", n, samples))
@@ -239,9 +253,40 @@ func TestStack(t *testing.T) {
 	}
 }
 
+// TestStackInfo records (never decides) how the call depth of NON-tail uses behaves:
+// seq.FoldRight with f(a, rest) = rest.Map(...) — the style of the repo's own
+// list tests — and a left-nested FlatMap chain. The statement only promises
+// constant stack for tail-recursive programs, so nothing is demanded here; the
+// measured depths are put into the evidence file.
+func TestStackInfo(t *testing.T) {
+	kit.Plain(t, "non-tail/info", "informative, never fails: relative call depth inside the mapping functions of seq.FoldRight(xs, 0, (a,rest) => rest.Map(+a)) and of a left-nested chain Done(0).Map(f)...Map(f) for n = 100 and n = 1000; recorded under extra", func(t *testing.T, rec *kit.Rec) {
+		for _, n := range []int{100, 1000} {
+			rec.Case(false, fmt.Sprintf("n=%d", n))
+			xs := make(fp.Seq[int], n)
+			p := newProbe(1, 0)
+			p.here()
+			seq.FoldRight(xs, 0, func(a int, rest lazy.Eval[int]) lazy.Eval[int] {
+				return rest.Map(func(v int) int { p.hit(false); return v + a })
+			}).Get()
+			rec.Extra(fmt.Sprintf("seq.FoldRight rest.Map depth n=%d", n), p.max)
+			q := newProbe(1, 0)
+			q.here()
+			e := lazy.Done(0)
+			for i := 0; i < n; i++ {
+				e = e.Map(func(v int) int { q.hit(false); return v + 1 })
+			}
+			e.Get()
+			rec.Extra(fmt.Sprintf("left-nested Map chain depth n=%d", n), q.max)
+		}
+	})
+}
+
 func checkStack(l loop, sig string, n, samples int, beat func(), failf func(sig, format string, args ...any)) {
 	n0 := n / 100
-	d0, got0, want0, _, pv0 := measure(l, n0, samples, 0, beat)
+	d0, got0, want0, grew0, pv0 := measure(l, n0, samples, 0, beat)
+	if grew0 != nil {
+		failf(sig+"|stack", "%s: call depth reached %d frames (relative; frame buffer saturated) at step %d of a run with only n=%d steps", l.name, grew0.depth, grew0.step, n0)
+	}
 	if pv0 != nil {
 		failf(sig+"|stack|panic", "%s with n=%d panicked: %v", l.name, n0, pv0)
 	}
